@@ -44,7 +44,10 @@ class CoreModel:
         return self.ana.get(norm(p), 0)
 
 
-PINS = [7, "7", 8, "08", "A0", 0, "0", 13, "13", "A1", 1]
+# Two pin families, one per history: the statement does not say whether the analogue-style name "A0" and the integer an Uno
+# maps it to (14) are one pin or two, so no history uses both an "A<n>" name and an integer in 14..21.
+PINS_A = [7, "7", 8, "08", "A0", 0, "0", 13, "13", "A1", 1, "A3", "A5", "A7", "LED", 255, "255"]
+PINS_N = [7, "7", 8, "08", 0, "0", 13, "13", 1, 14, "14", 15, 17, "17", 19, 21, "LED", 22, 255]
 
 
 def core_history(case):
@@ -61,6 +64,8 @@ def core_history(case):
     m = CoreModel()
     problems = []
     log = []
+    PINS = PINS_A if idx % 2 == 0 else PINS_N
+    ISOLATION_PROBES = sorted({norm(p) for p in PINS}, key=repr)
     for k in range(n):
         op = r.choice(["pin_mode", "digital_write", "analog_write", "digital_read", "digital_read", "analog_read", "analog_read"])
         p = r.choice(PINS)
@@ -91,7 +96,7 @@ def core_history(case):
                 problems.append(("analog_read", f"analog_read({p!r}) = {got!r}, memory model says {want!r}", list(log[-12:])))
         # isolation: every other pin still reads what the model says
         if k % 5 == 0:
-            for q in (7, 8, 0, 13, "A0", "A1", 1):
+            for q in ISOLATION_PROBES:
                 if C.digital_read(q) != m.digital_read(q) or C.analog_read(q) != m.analog_read(q):
                     problems.append(("isolation", f"after {log[-1]}: pin {q!r} reads d={C.digital_read(q)} a={C.analog_read(q)}, model d={m.digital_read(q)} a={m.analog_read(q)}", list(log[-12:])))
                     break
